@@ -47,6 +47,60 @@ def profile(tier, k):
     return p
 
 
+def functions_of(decls):
+    out = []
+    for d in decls:
+        if d[0] == 'fun':
+            out.append(d)
+        elif d[0] == 'ns':
+            out += functions_of(d[2])
+    return out
+
+
+def theorem_domain(rep, model, modules):
+    """C01_module_roundtrip / printed_decls_parse_back say: for every declaration list the model accepts as in the domain
+    (decidable test Parse/RoundTripDec.v: wf_fnb), parse_module maps the printed text back to exactly that list.  Here the
+    IMPLEMENTATION is run on those printed texts: the functions of every generated module that fall in the domain are
+    printed by the model (one file per module) and Module.parseString must return exactly them."""
+    shown = 0
+    for decls in modules:
+        funs = functions_of(decls)
+        inside = []
+        for f in funs:
+            a = model.ask('printdecls', [f])
+            if a.startswith('ok '):
+                inside.append(f)
+                rep.bump('theorem_domain_functions_inside')
+            elif a == 'outside':
+                rep.bump('theorem_domain_functions_outside')
+            else:
+                raise RuntimeError('printdecls: ' + a[:200])
+        if not inside:
+            continue
+        a = model.ask('printdecls', inside)
+        if not a.startswith('ok '):
+            rep.violation({'kind': 'broken-correspondence', 'what': 'the domain of the round-trip theorem is not closed under '
+                           'concatenation in the extracted model: ' + a[:100], 'input': sexp.dumps(inside)}, no_input=True)
+            continue
+        text = sexp.loads(a[3:])
+        rep.bump('theorem_domain_files')
+        rep.coverage['theorem_domain_max_file_chars'] = max(rep.coverage.get('theorem_domain_max_file_chars', 0), len(text))
+        i = pc.impl_parse(text)
+        m = pc.model_parse(model, text)
+        if m[0] != 'ok' or pc.canon(m[1]) != pc.canon(inside):
+            rep.violation({'kind': 'broken-correspondence', 'what': 'the extracted model contradicts printed_decls_parse_back',
+                           'input': text}, no_input=True)
+        elif i[0] != 'ok' or pc.canon(i[1]) != pc.canon(inside):
+            if shown < 3:
+                shown += 1
+                rep.violation({'kind': 'counterexample', 'what': 'a file printed from function declarations of the round-trip '
+                               'fragment does not parse back to them (the theorem holds of the model: the implementation departs '
+                               'from the modelled grammar semantics here)', 'input': text, 'expected': inside,
+                               'implementation': i[1] if i[0] == 'ok' else list(i)})
+        else:
+            rep.bump('theorem_domain_files_parse_back')
+
+
 def run(rep, tier, seed, replay=None, proof_ok=True):
     rep.coverage['rule'] = __doc__.split('\n\n', 1)[1][:1200]
     rep.assumptions += TRUSTED
@@ -57,12 +111,14 @@ def run(rep, tier, seed, replay=None, proof_ok=True):
         cases.append(('corpus:' + os.path.basename(f), open(f).read(), None))
     n = 260 if tier == 'quick' else 5000
     stats = {}
+    gen_modules = []
     for k in range(n):
         r = random.Random('c01/%d/%d' % (seed, k))
         g = G.Gen(r, profile(tier, k))
         m = g.module()
         style = G.STYLES[k % len(G.STYLES)]
         cases.append(('gen:%d/%d:%s' % (seed, k, style), G.text(G.tokens(m), r, style), G.abs_module(m)))
+        gen_modules.append(G.abs_module(m))
         for a, b in g.stats.items():
             stats[a] = stats.get(a, 0) + b
     if replay:
@@ -104,6 +160,15 @@ def run(rep, tier, seed, replay=None, proof_ok=True):
                                    'input': text, 'implementation': list(i)[:2], 'model': list(m)[:2]}, no_input=True)
             else:
                 rep.bump('model_agrees')
+        if not replay:
+            # a second stream aimed at the fragment: files of 1..12 plain functions with deep types and long argument lists
+            for k in range(60 if tier == 'quick' else 1500):
+                r = random.Random('c01fn/%d/%d' % (seed, k))
+                g = G.Gen(r, G.Profile(p_template=0.0, p_default=0.0, p_keyword_name=0.05, max_args=1 + k % 7,
+                                       max_type_depth=1 + k % 8, special_types=(k % 3 == 0)))
+                used = set()
+                gen_modules.append([G.a_decl(g.function(used)) for _ in range(1 + r.randrange(12))])
+            theorem_domain(rep, model, gen_modules)
         # recorded defects: still present?
         for fid, text, pred, what in WITNESSES:
             i = pc.impl_parse(text)
